@@ -9,7 +9,7 @@ From CM Require Import Lib.Str Lib.Wire Lib.CleanSyntax Gen.Consts Clean.Model C
 Open Scope Z_scope.
 
 Record runrec := RunRec {
-  rr_tid : nat; rr_opts : opts; rr_faults : list nat; rr_cancel : option nat;
+  rr_tid : nat; rr_opts : opts; rr_faults : list nat; rr_efaults : list nat; rr_cancel : option nat;
   rr_t0 : Z; rr_t1 : Z; rr_res : N;
   rr_fops : list (nat * fop)   (* foreign operations (another actor, no lock) just before call number n of the run *)
 }.
@@ -43,16 +43,17 @@ Fixpoint list_eqb {A} (f : A -> A -> bool) (a b : list A) : bool :=
   end.
 
 (** *** the model on a case *)
-Definition env_of (c : case) (r : runrec) : env := Env (rr_faults r) (rr_cancel r) (c_lfe c).
+Definition env_of (c : case) (r : runrec) : env := Env (rr_faults r) (rr_efaults r) (rr_cancel r) (c_lfe c).
 
-(** replay the runs (clock = t0 of each run); [None] as soon as a result or a call sequence differs *)
+(** replay the runs (clock = constantly t0 of each run: the harness skips cases whose outcome depends on
+    where in [t0,t1] a reading fell); [None] as soon as a result or a call sequence differs *)
 Fixpoint replay (c : case) (runs : list runrec) (s : store) : option store :=
   match runs with
   | [] => Some s
   | r :: rest =>
       let '(res, st') := match rr_fops r with
-                         | [] => clean (env_of c r) (rr_opts r) (rr_t0 r) s
-                         | fs => cleani (env_of c r) fs (rr_opts r) (rr_t0 r) s
+                         | [] => clean (env_of c r) (rr_opts r) (fun _ => rr_t0 r) s
+                         | fs => cleani (env_of c r) fs (rr_opts r) (fun _ => rr_t0 r) s
                          end in
       if N.eqb (result_code res) (rr_res r) &&
          list_eqb event_eqb (rev (lg st')) (proj (rr_tid r) (c_trace c))
@@ -103,7 +104,7 @@ Definition diff_ok (c : case) (k : key) : bool :=
        match as_clean cl with
        | Some (ts, i) =>
            existsb (fun r => (rr_t0 r <=? ts) && (ts <=? rr_t1 r) && seqb i (inst (rr_opts r)) &&
-                             stored_ok (proj (rr_tid r) (c_trace c))) (c_runs c)
+                             stored_any (proj (rr_tid r) (c_trace c))) (c_runs c)
        | None => false
        end
    end) &&
@@ -145,7 +146,7 @@ Definition diff_ok_f (c : case) (sf : store) (k : key) : bool :=
        match as_clean cl with
        | Some (ts, i) =>
            existsb (fun r => (rr_t0 r <=? ts) && (ts <=? rr_t1 r) && seqb i (inst (rr_opts r)) &&
-                             stored_ok (proj (rr_tid r) (c_trace c))) (c_runs c)
+                             stored_any (proj (rr_tid r) (c_trace c))) (c_runs c)
        | None => false
        end
    end) &&
@@ -242,12 +243,12 @@ Definition node_of (vals : list (bool * cls)) (code : Z) : option node :=
   | Some (fresh, c) => Some (File (if fresh then -1 else code - 2) c)
   | None => None
   end.
-(** store entry = key index * 100000 + node code *)
+(** store entry = key index * 1000 + node code *)
 Definition get_entry (tbl : list str) (vals : list (bool * cls)) : dec (key * node) :=
   p <- get_z ;;
-  if (p <? 0) || (p mod 100000 =? 1) then (fun _ => None) else
-  match node_of vals (p mod 100000) with
-  | Some n => ret (nth (Z.to_nat (p / 100000)) tbl [], n)
+  if (p <? 0) || (p mod 1000 =? 1) then (fun _ => None) else
+  match node_of vals (p mod 1000) with
+  | Some n => ret (nth (Z.to_nat (p / 1000)) tbl [], n)
   | None => (fun _ => None)
   end.
 Definition get_store (tbl : list str) (vals : list (bool * cls)) : dec store :=
@@ -255,14 +256,14 @@ Definition get_store (tbl : list str) (vals : list (bool * cls)) : dec store :=
 Definition get_opts : dec opts :=
   i <- get_z ;; a <- get_bool ;; b <- get_bool ;; g <- get_z ;; n <- get_pstr ;; ret (Opts i a b g n).
 Definition get_run : dec runrec :=
-  t <- get_nat ;; o <- get_opts ;; f <- get_list get_nat ;; c <- get_opt get_nat ;;
-  t0 <- get_z ;; t1 <- get_z ;; r <- get_n ;; ret (RunRec t o f c t0 t1 r []).
+  t <- get_nat ;; o <- get_opts ;; f <- get_list get_nat ;; ef <- get_list get_nat ;; c <- get_opt get_nat ;;
+  t0 <- get_z ;; t1 <- get_z ;; r <- get_n ;; ret (RunRec t o f ef c t0 t1 r []).
 (** foreign operation: call index, kind (0 Store, 1 Delete), key, node (Store only) *)
 Definition get_fop (tbl : list str) (vals : list (bool * cls)) : dec (nat * fop) :=
   i <- get_nat ;; kd <- get_z ;; ky <- get_key tbl ;;
   if kd =? 0 then n <- get_node vals ;; ret (i, FPut ky n) else ret (i, FDel ky).
 Definition with_fops (r : runrec) (fs : list (nat * fop)) : runrec :=
-  RunRec (rr_tid r) (rr_opts r) (rr_faults r) (rr_cancel r) (rr_t0 r) (rr_t1 r) (rr_res r) fs.
+  RunRec (rr_tid r) (rr_opts r) (rr_faults r) (rr_efaults r) (rr_cancel r) (rr_t0 r) (rr_t1 r) (rr_res r) fs.
 Definition get_run_f (tbl : list str) (vals : list (bool * cls)) : dec runrec :=
   r <- get_run ;; fs <- get_list (get_fop tbl vals) ;; ret (with_fops r fs).
 Definition opk_of (n : Z) : option opk :=
@@ -270,10 +271,10 @@ Definition opk_of (n : Z) : option opk :=
   | 0 => Some KLock | 1 => Some KUnlock | 2 => Some KLoad | 3 => Some KList
   | 4 => Some KStat | 5 => Some KDelete | 6 => Some KStore | _ => None
   end.
-(** event = (tid * 16 + kind * 2 + ok) * 100000 + key index *)
+(** event = (tid * 16 + kind * 2 + ok) * 1000 + key index *)
 Definition get_tev (tbl : list str) : dec tev :=
   q <- get_z ;;
-  let p := q / 100000 in let ky := nth (Z.to_nat (q mod 100000)) tbl [] in
+  let p := q / 1000 in let ky := nth (Z.to_nat (q mod 1000)) tbl [] in
   if q <? 0 then (fun _ => None) else
   match opk_of ((p / 2) mod 8) with
   | Some op => ret (TEv (Z.to_nat (p / 16)) (Ev op ky (negb (p mod 2 =? 0))))
@@ -296,7 +297,7 @@ Fixpoint explain_runs (c : case) (runs : list runrec) (s : store) : list Z :=
   match runs with
   | [] => []
   | r :: rest =>
-      let '(res, st') := cleani (env_of c r) (rr_fops r) (rr_opts r) (rr_t0 r) s in
+      let '(res, st') := cleani (env_of c r) (rr_fops r) (rr_opts r) (fun _ => rr_t0 r) s in
       (-1) :: Z.of_N (result_code res) ::
       flat_map (fun ev => [Z.of_N (opk_code (ev_kind ev)); Z.of_nat (length (ev_key ev)); if ev_ok ev then 1 else 0]) (rev (lg st'))
       ++ explain_runs c rest (sto st')
